@@ -76,6 +76,10 @@ def date(
         # they must not share a cache entry. Nor does the current time: it
         # is not the time of whichever render asked first.
         return _date.__wrapped__(dat, fmt, environment=environment)
+    if isinstance(dat, str):
+        # A string that leaves out the date, or part of it, is completed from today's
+        # date: the result is only good for as long as today lasts.
+        return _date(dat, fmt, environment=environment, today=datetime.date.today())
     return _date(dat, fmt, environment=environment)
 
 
@@ -85,6 +89,7 @@ def _date(  # noqa: PLR0912 PLR0911
     fmt: str,
     *,
     environment: Environment,
+    today: object = None,  # noqa: ARG001
 ) -> str:
     if is_undefined(dat):
         return ""
@@ -121,7 +126,8 @@ def _date(  # noqa: PLR0912 PLR0911
 
     if not isinstance(dat, (datetime.datetime, datetime.date)):
         raise FilterArgumentError(
-            f"date expected datetime.datetime, found {type(dat).__name__}"
+            f"date expected datetime.datetime, found {type(dat).__name__}",
+            token=None,
         )
 
     try:
